@@ -217,13 +217,13 @@ type rendered struct {
 }
 
 // renderResolvable is driver (i).
-func renderResolvable(resp *resolve.GraphQLResponse, data []byte) (r rendered) {
+func renderResolvable(resp *resolve.GraphQLResponse, data []byte, opts resolve.ResolvableOptions) (r rendered) {
 	defer func() {
 		if p := recover(); p != nil {
 			r.panicked = fmt.Sprint(p)
 		}
 	}()
-	res := resolve.NewResolvable(nil, resolve.ResolvableOptions{})
+	res := resolve.NewResolvable(nil, opts)
 	ctx := resolve.NewContext(context.Background())
 	if err := res.Init(ctx, data, ast.OperationTypeQuery); err != nil {
 		r.initErr = err.Error()
